@@ -21,11 +21,15 @@ BigTable(n, b) == [be |-> b,
                    regs |-> [j \in 1..n |-> [ty |-> 0, addr |-> j - 1, ck |-> 0, lo |-> <<0>>, hi |-> <<0>>, def |-> <<((j - 1) * 7) % 65536>>]]]
 TInitBig(n, b) == /\ d' = BigTable(n, b) /\ touched' = {} /\ inited' = TRUE /\ mem' = <<[j \in 1..n |-> ((j - 1) * 7) % 65536]>>
                   /\ ev' = [op |-> "tinitbig", a |-> <<n, b>>, o |-> <<0, 0, n - 1, n>>, alts |-> {<<0, 0, n - 1, n>>}]
+(* tmacro <description>: the harness initialises a table that is written with the library's public construction macros (MEMORY_AREA,
+   CUSTOM_AREA_RO, REG_S32RANGE, ...); the event's arguments repeat that description.  Same as tinit otherwise. *)
+TMacro(t) == TInit(t) /\ TRUE
 V(ty, w4) == LastN(w4, Size(ty))
 Step == CASE e.op = "@" -> Restart
           [] e.op = "abase" -> Rebase
           [] e.op = "tinit" -> TInit(Unflatten(e.a))
           [] e.op = "tinitbig" -> TInitBig(e.a[1], e.a[2])
+          [] e.op = "tmacro" -> TMacro(Unflatten(e.a))
           [] e.op = "set" -> Set(e.a[1], e.a[3], V(e.a[3], SubSeq(e.a, 4, 7)), e.a[2])
           [] e.op = "get" -> Get(e.a[1])
           [] e.op = "sweep16" -> Sweep16(e.a[1], e.a[2])
@@ -45,7 +49,7 @@ Step == CASE e.op = "@" -> Restart
           [] OTHER -> FALSE
 Unchecked(x) == x.op \in {"corrupt", "mcopy", "hexstr"} \/ (x.op \in {"set", "sweep16"} /\ x.a[2] = 1)       \* out-of-band or unchecked modification
 TNext == /\ l <= Len(TraceLog) /\ l' = l + 1 /\ Step
-         /\ dirty' = (IF e.op \in {"sanitise", "tinit", "tinitbig", "@"} THEN FALSE ELSE dirty \/ Unchecked(e))
+         /\ dirty' = (IF e.op \in {"sanitise", "tinit", "tinitbig", "tmacro", "@"} THEN FALSE ELSE dirty \/ Unchecked(e))
          /\ (e.op # "@" => e.o \in ev'.alts /\ e.asan = 0)
 TSpec == TInitS /\ [][TNext]_<<vars, ev, l, dirty>>
 (* constraints hold in every state reached by checked operations; corruption is flagged by the driver *)
